@@ -144,15 +144,25 @@ func VerifC03History() {
 	for s := 1; s <= h+1; s++ {
 		// the operation shape is case-split (paths stay concrete); written values are symbolic
 		var op int
+		trailing := 0
 		if s <= h {
 			op = verifrt.Fork("op"+"0123456789"[s:s+1], cfgstore.VNP+cfgstore.VLeaves)
 		} else {
-			// optionally one more Set of a fixed shape (update of leaf 4): whatever the history, a later unrelated
-			// Set re-reads and re-writes the whole stored configuration
-			if !verifrt.NondetBool("trailing-set") {
+			// optionally one more Set of a fixed shape: (1) update of leaf 4 - whatever the history, a later unrelated
+			// Set re-reads and re-writes the whole stored configuration; (2) ONE request that deletes /a and updates
+			// /a/b/c beneath it: gNMI processes the deletes of a request before its updates
+			if verifrt.Param("onlycombined") == 1 {
+				trailing = 2 // the run with reversed map ranges: only the request with two operations depends on an order
+			} else {
+				trailing = verifrt.Fork("trailing", 3)
+			}
+			if trailing == 0 {
 				break
 			}
 			op = cfgstore.VNP + 4
+			if trailing == 2 {
+				op = cfgstore.VNP + 0
+			}
 		}
 		node, del := op, true
 		if op >= cfgstore.VNP {
@@ -174,6 +184,14 @@ func VerifC03History() {
 		} else {
 			tv := cfgstore.VValue(tag)
 			req.Update = []*gnmi.Update{{Path: &gnmi.Path{Elem: elems}, Val: &gnmi.TypedValue{Value: &gnmi.TypedValue_StringVal{StringVal: string(tv.Bytes)}}}}
+		}
+		if trailing == 2 {
+			req.Delete = []*gnmi.Path{{Elem: c03Elems(6)}}
+			for j := 0; j < cfgstore.VLeaves; j++ {
+				if cfgstore.VCovers(6, j) {
+					refLive[j] = false
+				}
+			}
 		}
 		vTx = nil
 		_, err := srv.Set(ctx, req)
